@@ -118,6 +118,12 @@ W.append(("P41", "C02", I([A5], RET, cells=[[0, "google", True]])))
 W.append(("P42", "C02", I([A], doc="", cells=[[0, "google", True]])))
 W.append(("P10", "C02", I([["a", {"typ": "Optional[int]", "doc": "the a", "default": "```(None)```"}]], cells=[[0, "rest", True], [2, "rest", True], [3, "google", True]])))
 
+# ---- C03 witnesses (seqs = hop histories)
+W.append(("P13", "C03", I([A], seqs=[["argparse"]])))
+W.append(("P14", "C03", I([A], seqs=[["function", "class"]])))
+W.append(("P6", "C03", I([["a", {"typ": "int", "doc": "the a", "default": -5}]], seqs=[["doc_rest"], ["class", "doc_rest", "function"]])))
+W.append(("P10", "C03", I([["a", {"typ": "Optional[int]", "doc": "the a", "default": "```(None)```"}]], seqs=[["doc_rest", "class"], ["function", "doc_rest"]])))
+
 
 def main():
     for fid, prop, case in W:
